@@ -21,8 +21,11 @@ Trunc  == [kind : {"trunc"}, len : {"zero", "s1", "s2", "midarr", "nobackup", "o
 \* base: all four slots in use / one partition and three unused (all-zero) slots / the protective MBR of a
 \* valid GPT disk (slot 1 = 0xEE, three unused slots): a damaged field of an UNUSED slot is a fault too
 MbrF   == [kind : {"mbr"}, base : {"full", "one", "pmbr"}, field : {"sig", "boot", "type", "start", "size"}, val : Vals, slot : {"1", "2", "4"}]
+\* the same 16 KiB array described with another entry size: count x esize stays 128 x 128 bytes, both CRCs
+\* are consistent with what the header says (the array bytes do not change, the header CRC is recomputed)
+Rescale == [kind : {"rescale"}, copy : {"primary", "both"}, esize : {"1", "2", "32", "64", "256", "512", "4096"}]
 RandN(n) == [kind : {"rand"}, n : 1..n]
-Space(nrand, withPairs) == Single \cup Trunc \cup MbrF \cup RandN(nrand) \cup (IF withPairs THEN Pairs ELSE {})
+Space(nrand, withPairs) == Single \cup Trunc \cup MbrF \cup Rescale \cup RandN(nrand) \cup (IF withPairs THEN Pairs ELSE {})
 
 \* ev.out  "table" | "error" | "panic" | "hang" | "oom" | "crash"
 \* ev.alloc_mb, ev.dev_mb   megabytes allocated during the call / device size
